@@ -548,35 +548,41 @@ def run(ctx):
     # spellings: rules with <=1 part (+ kind) x spelling deviations <= 2
     kr = ctx.pick(1, 2)
     ks = ctx.pick(2, 3)
-    base = []
-    for freq in (0, 1, 2, 3, 4):
-        for kind in (None, 'utc', 'tzfile', 'date'):
-            for sh in shape.shapes(menus_naive, kr):
-                if not c01.valid_shape(freq, sh):
-                    continue
-                c = dict(sh)
-                c['freq'] = freq
-                c['start'] = rules.STARTS[0]
-                if kind:
-                    c['kind'] = kind
-                    if kind == 'date' and c.get('term', ('x',))[0] == 'until':
-                        pass
-                base.append(c)
+
+    def rule_shapes(kr):
+        out = []
+        for freq in (0, 1, 2, 3, 4):
+            for kind in (None, 'utc', 'tzfile', 'date'):
+                for sh in shape.shapes(menus_naive, kr):
+                    if not c01.valid_shape(freq, sh):
+                        continue
+                    c = dict(sh)
+                    c['freq'] = freq
+                    c['start'] = rules.STARTS[0]
+                    if kind:
+                        c['kind'] = kind
+                    out.append(c)
+        return out
+    base = rule_shapes(1)
     sps = list(shape.shapes(SPELL, ks))
+    sp1 = [s for s in sps if len(s) <= 1]
+    sp2 = [s for s in sps if len(s) == 2]
     if not ctx.thorough:
         # quick: every rule with every <=1-deviation spelling, every <=2-deviation spelling on a rotating third of the rules
-        sp1 = [s for s in sps if len(s) <= 1]
-        sp2 = [s for s in sps if len(s) == 2]
         cs = [(c, s) for c in base for s in sp1]
         cs += [(c, s) for i, c in enumerate(base) if i % 3 == ctx.seed % 3 for s in sp2]
+        ctx.explore('spellings', cs, 'eval_spelling', chunk=64)
     else:
-        cs = [(c, s) for c in base for s in sps]
-    ctx.explore('spellings', cs, 'eval_spelling', chunk=64)
+        # thorough: rules with <= 1 part x spellings with <= 3 deviations, and rules with <= 2 parts x spellings with <= 2
+        # (the full product of the two deeper bounds is 53 M cases; enumerated lazily, nothing is stored per case)
+        ctx.explore('spellings', ((c, s) for c in base for s in sps), 'eval_spelling', chunk=64)
+        wide = [c for c in rule_shapes(2) if len([k_ for k_ in c if k_ not in ('freq', 'start', 'kind')]) == 2]
+        ctx.explore('spellings-rules-k<=2', ((c, s) for c in wide for s in sp1 + sp2), 'eval_spelling', chunk=256)
     ctx.explore('sets', set_cases(), 'eval_set', chunk=16)
     ctx.explore('sets-zones', set_tz_cases(), 'eval_set_tz', chunk=16)
     ctx.explore('malformed', MALFORMED, 'eval_malformed', serial=True)
     ctx.coverage_extra.update({
-        'bounds': {'roundtrip_k': k, 'spelling_rule_k': kr, 'spelling_deviation_k': ks, 'occurrences_compared': N_OCC},
+        'bounds': {'roundtrip_k': k, 'spelling_rule_k': kr, 'spelling_deviation_k': ks, 'thorough_products': 'rules k<=1 x spellings k<=3; rules k<=2 x spellings k<=2', 'occurrences_compared': N_OCC},
         'rule': 'round trip over C01 shapes with naive starts; spellings = rule shapes x deviation-bounded spelling features; '
                 'sets = product of member selections x options; non-trivial = at least 2 occurrences compared',
         'spelling_menus': {k_: v for k_, v in SPELL.items()},
